@@ -231,6 +231,7 @@ CHECKS = {
         "level_note": "Trusted: SSA->SMT executor, z3; TLS itself is a stub (SetEncryption records the switch). Bounds: script depth 4 / 6.",
         "runs": [
             {"harness": "HarnessC08Client", "params": {"depth": 4}, "reach": ["c09:client-got-confirmation"]},
+            {"harness": "HarnessC08Client", "params": {"depth": 4, "setfails": 1}, "reach": ["c09:client-option-switch-failed"]},
             # transport level: tcpTransport.SetEncryption over a TLS stub (not replayable natively: real TLS needs a real peer)
             {"harness": "HarnessC09TCPEncryption", "reach": ["c09:upgraded", "c09:handshake-failed"], "replay_reach": 0},
             {"harness": "HarnessC09Server", "grid": {"enccfg": [0, 1, 2, 3], "transport": [0, 1, 2]}, "params": {"depth": 4}, "skip": INSANE,
@@ -245,9 +246,12 @@ CHECKS = {
     "C10": {
         "level_text": "Same symbolic server handshake with every configuration whose encryption list excludes 'none' on every transport able to provide "
                       "a configured option, against arbitrary (cooperative or hostile) client scripts: at every emitted authenticating/established "
-                      "envelope and at every Authenticate call the transport's encryption is a member of the configured list.",
+                      "envelope and at every Authenticate call the transport's encryption is a member of the configured list. The documented case on the real TCP transport: "
+                      "with EncryptionOptions(TLS) and a tls.Config (static or per-connection certificates) the server's first answer to `new` offers exactly [tls] and no "
+                      "credentials are requested in cleartext (the real tcpTransport.SupportedEncryption / Send / Receive over a frame-level connection).",
         "level_note": "Trusted: SSA->SMT executor, z3; SetEncryption is a stub that records the switch. Bounds: script depth 4 / 6.",
         "runs": [
+            {"harness": "HarnessC10TCP", "grid": {"certs": [0, 1]}, "reach": ["c10:tcp-handshake-returned"]},
             {"harness": "HarnessC10Server", "grid": {"enccfg": [1], "transport": [0, 1]}, "params": {"depth": 4},
              "reach": ["c10:handshake-returned"], "tier": "quick"},
             {"harness": "HarnessC10Server", "grid": {"enccfg": [1], "transport": [0, 1], "authnil": [0, 1], "setfails": [0, 1]}, "params": {"depth": 6},
@@ -394,6 +398,7 @@ CHECKS = {
         "level_note": "Trusted: SSA->SMT executor, bounded cooperative scheduler (no instruction-level races), uuid values modelled as pairwise distinct, z3. "
                       "Bounds: 2 sessions, 1 / 2 data messages each, channel buffer {0,1}, P = 0 / 1.",
         "runs": [
+            {"harness": "HarnessC18StartStop", "params": {"sched": 1, "P": 0, "listeners": 2, "when": 1, "closeerr": 0}, "reach": ["c18:closed"], "threads": True},
             {"harness": "HarnessC17Context", "grid": {"buf": [0, 1]}, "params": {"sched": 1}, "reach": ["c17:all-kinds-dispatched"], "threads": True},
             {"harness": "HarnessC17Sessions", "grid": {"buf": [0, 1]}, "params": {"sched": 1, "msgs": 1}, "reach": ["c17:sessions-settled"],
              "threads": True, "tier": "quick"},
